@@ -70,13 +70,13 @@ def SeqPost (R : SegRes) (D : ByteArray) (lens : List Nat)
     (rs : List (ByteArray × RStat)) : Prop :=
   (∀ x ∈ rs, NotBad x.2) ∧
   (rs.length ≤ lens.length ∧ ∀ i (hi : i < rs.length), (rs[i]).1.size ≤ lens[i]! ∧ ((rs[i]).2 = .ok → (rs[i]).1.size = lens[i]!)) ∧
-  Pre R (D ++ delivered rs) ∧
+  Pre 0 R (D ++ delivered rs) ∧
   (lastStat rs = .eof → K R → R.status = .eof ∧ (D ++ delivered rs).data.toList = R.d.h.out.data.toList) ∧
   (∀ e, lastStat rs = .err e → GoodErr (K R) e R.status) ∧
   (lastStat rs = .ok → (delivered rs).size = lens.sum)
 
 theorem readSeq_spec (R : SegRes) (hcap : 274 ≤ cap) : ∀ (lens : List Nat) (l : LSt) (D : ByteArray),
-    GI p size cap R l D → SeqPost R D lens (readSeq l lens) := by
+    GI p size cap 0 0 R l D → SeqPost R D lens (readSeq l lens) := by
   intro lens
   induction lens with
   | nil =>
@@ -88,7 +88,7 @@ theorem readSeq_spec (R : SegRes) (hcap : 274 ≤ cap) : ∀ (lens : List Nat) (
     · intro e h; cases h
   | cons len rest ih =>
     intro l D hg
-    have hr := read_spec R hcap hg len
+    have hr := read_spec' R hcap hg len
     rw [readSeq]
     rcases hrd : read l len with ⟨l', out, st⟩
     rw [hrd] at hr
@@ -97,7 +97,7 @@ theorem readSeq_spec (R : SegRes) (hcap : 274 ≤ cap) : ∀ (lens : List Nat) (
     cases st with
     | ok =>
       simp only
-      obtain ⟨i1, ⟨i2, i3⟩, i4, i5, i6, i7⟩ := ih l' (D ++ out) q4
+      obtain ⟨i1, ⟨i2, i3⟩, i4, i5, i6, i7⟩ := ih l' (D ++ out) q4.2
       have hdl : D ++ delivered ((out, RStat.ok) :: readSeq l' rest) = D ++ out ++ delivered (readSeq l' rest) := by
         rw [delivered_cons, ByteArray.append_assoc]
       refine ⟨?_, ⟨?_, ?_⟩, ?_, ?_, ?_, ?_⟩
@@ -133,7 +133,11 @@ theorem readSeq_spec (R : SegRes) (hcap : 274 ≤ cap) : ∀ (lens : List Nat) (
         simp only [List.getElem_cons_zero, List.getElem!_cons_zero]
         exact ⟨q1, fun h => by cases h⟩
       · rw [hd1]; exact q3
-      · rw [hd1]; intro _; exact q4
+      · rw [hd1]; intro _ hK
+        obtain ⟨_, a2, d, ⟨a3, a4, _, a6⟩, a7⟩ := q4
+        obtain ⟨e1, e2⟩ := a6 a2 hK
+        refine ⟨e1, ?_⟩
+        rw [a4, e2, List.drop_zero, List.take_of_length_le (by rw [length_toList, a7]; omega)]
       · intro e h; cases h
       · intro h; cases h
     | err e =>
@@ -224,7 +228,7 @@ theorem delivered_prefix (cfgCap : Nat) (inp : ByteArray) (l : LSt) (h : newRead
   obtain ⟨R, e1, e2, hs⟩ := schedule_spec cfgCap inp l h lens
   have hK : K R := by rw [K, ← e2]; exact hfuel
   have hp := hs.2.2.1 hK
-  rw [ByteArray.empty_append] at hp
+  rw [ByteArray.empty_append, List.drop_zero] at hp
   intro out
   have ho : out = R.d.h.out := e1
   rw [ho]
@@ -268,7 +272,7 @@ theorem reaches_eof (cfgCap : Nat) (inp : ByteArray) (l : LSt) (h : newReader cf
   have hst : R.status = .eof := by rw [← e2]; exact hclean
   have hK : K R := by rw [K, hst]; intro hh; cases hh
   have hp := hs.2.2.1 hK
-  rw [ByteArray.empty_append] at hp
+  rw [ByteArray.empty_append, List.drop_zero] at hp
   have hlen := congrArg List.length hp
   rw [length_toList, List.length_take, length_toList] at hlen
   rw [e1] at hsum
